@@ -398,3 +398,31 @@ CHECKS["C14"] = dict(
     level_text="All histories of the stated alphabet up to length 2 (3) and every generation-counter value are executed on the real engine and compared line by line with a fresh start.",
     level_note="Trusted: the session runner; histories longer than 3 operations + 16 trivial searches are not covered.",
 )
+
+# ------------------------------------------------------------------------------------------ C11
+def c11_parts(tier, seed):
+    T = "c11_draws"
+    q = tier == "quick"
+    return [
+        P("repetition", T, "fast", ["--part", "rep", "--len", 10 if q else 12], require=["third_occurrence_moves", "second_occurrence_moves"], deadline_frac=0.9),
+        P("fifty-move", T, "fast", ["--part", "fifty"], require=["mating_moves", "nontrivial"], deadline_frac=0.9),
+        P("repetition-asan", T, "seq", ["--part", "rep", "--len", 6 if q else 8], require=["states"], deadline_frac=0.9),
+    ]
+
+CHECKS["C11"] = dict(
+    parts=c11_parts,
+    rule="states = game histories executed as sessions (rep) resp. searches (fifty), distinct by construction; transitions = (history, move, depth) searches judged; "
+         "non-trivial = the history has a candidate move creating a third occurrence / the move completes 100 plies without mating",
+    alphabet="rep: 6 families (startpos knight shuffles, KRKR shuffle, rook shuffles that lose castling rights, double push with an en-passant capture that is illegal because of a pin, "
+             "the same with a legal capture, shuffles after an irreversible prefix) x ALL legal sequences up to length L over the family's reversible alphabet x candidate moves "
+             "(alphabet moves + 2 others) x depth {1,2,3[,5]} through the real UCI stack (position fen F moves H; go depth d searchmoves m); "
+             "fifty: every KQK/KRK placement (triangle, either colour) with a mate in one at clock 99 [98,100] x every legal move x depth, and clocks 90..110 by FEN on 4 positions",
+    oracle="independent oracle: occurrences counted by the FIDE key (placement, side, castling rights, legally possible en-passant capture) since the last irreversible move; "
+           "third occurrence => final score exactly 'cp 0'; move completing 100 plies without mate => 'cp 0', mating move => 'mate 1'; plus the session contract",
+    bound=dict(quick="L = 10 (all 2nd/3rd occurrences at every length and parity up to 11 plies), depth 1-3", thorough="L = 12, depth 1-3,5, clocks 98-100"),
+    assumptions=["console game mode (draw claims, game-over states) is not covered by this check yet; see DESIGN.md",
+                 "Contempt 0 (a non-zero contempt deliberately shifts the draw score)"],
+    technique="bounded-exhaustive enumeration of game histories on the real UCI stack / search, independent repetition and 50-move oracle",
+    level_text="All histories over the shuffle alphabets up to the length bound are fed to the real engine and every draw-producing move is checked for an exact draw score.",
+    level_note="Trusted: the oracle's repetition key; histories outside the 6 families are not covered.",
+)
